@@ -127,10 +127,19 @@ Proof.
       rewrite <- (firstn_app_le i v r0 Hle); symmetry; apply firstn_skipn end.
 Qed.
 
-Theorem pi_data_fact_spec : forall s,
-  pi_data_fact s = if DomL1.storable_pi s then Some (Some (DomL1.skip_space s)) else None.
+(** the data a processing instruction with target [tg] stores for the argument [s]
+    (XmlProcessingInstruction::set_content: the target is the one of the node; the harness and
+    [pi_data_fact] use the target t) *)
+Definition pi_data_of (tg s : str) : option (option str) :=
+  match whole (parse_pi ([60; 63] ++ tg ++ [32] ++ s ++ [63; 62])) with
+  | Some p => Some (pi_value p)
+  | None => None
+  end.
+
+Theorem pi_data_of_spec : forall tg s, pi_target_ok tg ->
+  pi_data_of tg s = if DomL1.storable_pi s then Some (Some (DomL1.skip_space s)) else None.
 Proof.
-  intros s. unfold pi_data_fact. destruct (skip_space_split s) as [w [Es [Hw Hs]]].
+  intros tg s Htg. unfold pi_data_of. destruct (skip_space_split s) as [w [Es [Hw Hs]]].
   set (d := DomL1.skip_space s) in *. clearbody d.
   destruct (DomL1.storable_pi s) eqn:St.
   - unfold DomL1.storable_pi in St. apply andb_prop in St. destruct St as [S1 S2]. apply negb_true_iff in S2.
@@ -139,22 +148,22 @@ Proof.
       - rewrite Es, forallb_app in S1. apply andb_prop in S1. destruct S1 as [_ S1].
         exact (eq_trans (eq_sym (chars_is_char d)) S1).
       - apply contains_find. rewrite Es in S2. unfold DomL1.pi_end in S2. rewrite (contains_ws_prefix w d Hw) in S2. exact S2. }
-    assert (Hp : parse_pi ([60; 63; 116; 32] ++ s ++ [63; 62]) = POk (PI [116] (Some d), [])).
-    { apply (parse_with_yields nt_pi _ _ (VPI (PI [116] (Some d))) []); [|reflexivity].
-      assert (Ei : [60; 63; 116; 32] ++ s ++ [63; 62] = [60; 63] ++ [116] ++ (32 :: w) ++ d ++ [63; 62] ++ []).
+    assert (Hp : parse_pi ([60; 63] ++ tg ++ [32] ++ s ++ [63; 62]) = POk (PI tg (Some d), [])).
+    { apply (parse_with_yields nt_pi _ _ (VPI (PI tg (Some d))) []); [|reflexivity].
+      assert (Ei : [60; 63] ++ tg ++ [32] ++ s ++ [63; 62] = [60; 63] ++ tg ++ (32 :: w) ++ d ++ [63; 62] ++ []).
       { rewrite Es. cbn [app]. rewrite <- app_assoc. reflexivity. }
-      rewrite Ei. apply (yields_pi_ws [116] (32 :: w) d []); [split; reflexivity | discriminate | cbn [forallb]; apply andb_true_intro; split; [reflexivity | exact Hw] | exact Hd]. }
+      rewrite Ei. apply (yields_pi_ws tg (32 :: w) d []); [exact Htg | discriminate | cbn [forallb]; apply andb_true_intro; split; [reflexivity | exact Hw] | exact Hd]. }
     rewrite Hp. reflexivity.
-  - destruct (whole (parse_pi ([60; 63; 116; 32] ++ s ++ [63; 62]))) as [p|] eqn:W; [|reflexivity]. exfalso.
+  - destruct (whole (parse_pi ([60; 63] ++ tg ++ [32] ++ s ++ [63; 62]))) as [p|] eqn:W; [|reflexivity]. exfalso.
     subst s. apply whole_some in W. apply parse_with_ok in W. destruct W as [t [Hr _]]. apply run_succ in Hr.
-    cbn [app] in Hr. inv_nt Hr body_pi. invs.
+    cbn [app] in Hr. destruct Htg as [Htn _]. inv_nt Hr body_pi. invs.
     + (* with data *)
       match goal with H : _ :: _ = [60; 63] ++ _ |- _ => cbn [app] in H; injection H as <- end.
       match goal with H : succ _ (NT nt_pi_target) _ _ _ |- _ => apply inv_pi_target_str in H; destruct H as [n [_ [[Hn _] [En Hsn]]]] end.
       match goal with H : succ _ (TakeUntil _ _) _ _ _ |- _ => apply inv_take_until_mc_str in H; [|discriminate]; destruct H as [x [_ [Hx1 [Hx2 Ex]]]] end.
-      (* the target is the letter t *)
-      destruct (span_unique (eval is_name_char) [116] (32 :: (w ++ d) ++ [63; 62]) n (a ++ r0)) as [_ E2];
-        [reflexivity | reflexivity | exact Hn | exact Hsn | exact En |].
+      (* the target read back is [tg] *)
+      destruct (span_unique (eval is_name_char) tg (32 :: (w ++ d) ++ [63; 62]) n (a ++ r0)) as [_ E2];
+        [exact Htn | reflexivity | exact Hn | exact Hsn | exact En |].
       (* the separator is the white space in front of [d] *)
       assert (E3 : (32 :: w) ++ d ++ [63; 62] = a ++ r0) by (rewrite <- E2; cbn [app]; rewrite <- app_assoc; reflexivity).
       destruct (span_unique (eval ws) (32 :: w) (d ++ [63; 62]) a r0) as [_ E4];
@@ -169,9 +178,13 @@ Proof.
     + (* no separator: impossible, the text goes on with a space *)
       match goal with H : _ :: _ = [60; 63] ++ _ |- _ => cbn [app] in H; injection H as <- end.
       match goal with H : succ _ (NT nt_pi_target) _ _ _ |- _ => apply inv_pi_target_str in H; destruct H as [n [_ [[Hn _] [En Hsn]]]] end.
-      destruct (span_unique (eval is_name_char) [116] (32 :: (w ++ d) ++ [63; 62]) n ([63; 62] ++ [])) as [_ E2];
-        [reflexivity | reflexivity | exact Hn | exact Hsn | exact En |]. discriminate E2.
+      destruct (span_unique (eval is_name_char) tg (32 :: (w ++ d) ++ [63; 62]) n ([63; 62] ++ [])) as [_ E2];
+        [exact Htn | reflexivity | exact Hn | exact Hsn | exact En |]. discriminate E2.
 Qed.
+
+Theorem pi_data_fact_spec : forall s,
+  pi_data_fact s = if DomL1.storable_pi s then Some (Some (DomL1.skip_space s)) else None.
+Proof. intros s. apply (pi_data_of_spec [116] s). split; reflexivity. Qed.
 
 (** ** attribute values: "a=" and the quoted value *)
 Definition quote_of (s : str) : N := if existsb (N.eqb 34) s then 39 else 34.
@@ -184,7 +197,67 @@ Proof. unfold quoted, quote_of. destruct (existsb (N.eqb 34) s); reflexivity. Qe
 
 Definition attr_a (avl : list att_value) : attribute := Attribute (AnQName (Unprefixed [97])) avl.
 
-(** the production attribute on [a=] followed by a quote is the production att_value on the rest *)
+(** the name of the attribute an NCName spells *)
+Definition name_att (n : str) : att_name :=
+  if Peg.str_eqb n Info.s_xmlns then AnDefaultNamespace else AnQName (Unprefixed n).
+
+(** the production attribute on an NCName, [=] and a quote is the production att_value on the rest
+    (XmlAttribute::set_values writes the local name of the attribute in front; the harness and
+    [value_fact] write the name a) *)
+Lemma attr_n_run n q u : ncname_ok n -> q = 34 \/ q = 39 ->
+  parse_attribute (n ++ 61 :: q :: u) =
+  match run G_xml G_xml_R nt_att_value (q :: u) with
+  | Ok (t, r) => match as_list as_attvalue (eval_tree t) with Some avl => POk (Attribute (name_att n) avl, r) | None => PBadTree end
+  | Fail => PFail
+  | Oof => POof
+  end.
+Proof.
+  intros Hn Hq.
+  assert (Hname : P (Map L_model_AttributeName_from (NT nt_qname)) (n ++ 61 :: q :: u)
+                    (TMap L_model_AttributeName_from (tree_qname (Unprefixed n))) (61 :: q :: u)).
+  { apply parses_map. apply (parses_qname (Unprefixed n) (61 :: q :: u)); [exact Hn | reflexivity]. }
+  assert (Heq : P (NT nt_eq) (61 :: q :: u) (TStr [61]) (q :: u)).
+  { apply parses_eq. destruct Hq as [-> | ->]; reflexivity. }
+  unfold name_att. destruct (Peg.str_eqb n Info.s_xmlns) eqn:Ex.
+  - (* the name xmlns: the first alternative reads it *)
+    apply Expansion.str_eqb_eq in Ex. subst n.
+    assert (Hns : P (NT nt_ns_att_name) (Info.s_xmlns ++ 61 :: q :: u) (TMap L_closure_e50bdeb9 (TStr Info.s_xmlns)) (61 :: q :: u)).
+    { apply parses_nt. rewrite body_ns_att_name. apply parses_alt_r.
+      - apply fails_map. apply fails_seqr_l. apply fails_tag. reflexivity.
+      - apply parses_map. apply parses_tag. }
+    destruct (run G_xml G_xml_R nt_att_value (q :: u)) as [[t r]| |] eqn:R.
+    + assert (Hv : P (NT nt_att_value) (q :: u) t r) by (eapply parses_of_denote; exact R).
+      unfold parse_attribute, parse_with.
+      rewrite (run_parses nt_attribute _ (TMap L_model_Attribute_from (TPair (TMap L_closure_e50bdeb9 (TStr Info.s_xmlns)) t)) r).
+      * cbn [eval_tree].
+        change (apply_label L_model_Attribute_from (VPair (apply_label L_closure_e50bdeb9 (VStr Info.s_xmlns)) (eval_tree t)))
+          with (ret (fun a' => VAttribute (Attribute AnDefaultNamespace a')) (as_list as_attvalue (eval_tree t))).
+        destruct (as_list as_attvalue (eval_tree t)) as [avl|]; reflexivity.
+      * apply parses_nt. rewrite body_attribute. apply parses_map. apply parses_alt_l.
+        eapply parses_seq; [exact Hns|]. eapply parses_seqr; [exact Heq | exact Hv].
+    + apply parse_with_fails. apply fails_nt. rewrite body_attribute. apply fails_map. apply fails_alt.
+      * eapply fails_seq_r; [exact Hns|]. eapply fails_seqr_r; [exact Heq|]. eapply fails_of_denote. exact R.
+      * eapply fails_seq_r; [exact Hname|]. eapply fails_seqr_r; [exact Heq|]. eapply fails_of_denote. exact R.
+    + exfalso. exact (xml_grammar_terminates _ _ R).
+  - assert (Hns : F (Seq (NT nt_ns_att_name) (SeqR (NT nt_eq) (NT nt_att_value))) (n ++ 61 :: q :: u)).
+    { apply ns_alt_fails; [exact Hn | | right; reflexivity]. intros ->. rewrite Expansion.str_eqb_refl in Ex. discriminate. }
+    destruct (run G_xml G_xml_R nt_att_value (q :: u)) as [[t r]| |] eqn:R.
+    + assert (Hv : P (NT nt_att_value) (q :: u) t r) by (eapply parses_of_denote; exact R).
+      unfold parse_attribute, parse_with.
+      rewrite (run_parses nt_attribute _
+                 (TMap L_model_Attribute_from (TPair (TMap L_model_AttributeName_from (tree_qname (Unprefixed n))) t)) r).
+      * cbn [eval_tree]. rewrite eval_tree_qname.
+        change (apply_label L_model_Attribute_from
+                  (VPair (apply_label L_model_AttributeName_from (VQName (Unprefixed n))) (eval_tree t)))
+          with (ret (fun a' => VAttribute (Attribute (AnQName (Unprefixed n)) a')) (as_list as_attvalue (eval_tree t))).
+        destruct (as_list as_attvalue (eval_tree t)) as [avl|]; reflexivity.
+      * apply parses_nt. rewrite body_attribute. apply parses_map. apply parses_alt_r; [exact Hns|].
+        eapply parses_seq; [exact Hname|]. eapply parses_seqr; [exact Heq | exact Hv].
+    + apply parse_with_fails. apply fails_nt. rewrite body_attribute. apply fails_map. apply fails_alt; [exact Hns|].
+      eapply fails_seq_r; [exact Hname|]. eapply fails_seqr_r; [exact Heq|]. eapply fails_of_denote. exact R.
+    + exfalso. exact (xml_grammar_terminates _ _ R).
+Qed.
+
 Lemma attr_a_run q u : q = 34 \/ q = 39 ->
   parse_attribute ([97; 61] ++ q :: u) =
   match run G_xml G_xml_R nt_att_value (q :: u) with
@@ -192,32 +265,24 @@ Lemma attr_a_run q u : q = 34 \/ q = 39 ->
   | Fail => PFail
   | Oof => POof
   end.
+Proof. intros Hq. apply (attr_n_run [97] q u); [split; reflexivity | exact Hq]. Qed.
+
+(** the value items do not depend on the name written in front *)
+Definition value_of_name (n s : str) : option (list DomOps.vitem) :=
+  match whole (parse_attribute (n ++ [61] ++ quoted s)) with
+  | Some a => Some (map vitem_of (at_value a))
+  | None => None
+  end.
+
+Theorem value_of_name_fact : forall n s, is_NCName n = true -> value_of_name n s = value_fact s.
 Proof.
-  intros Hq.
-  assert (Hns : F (Seq (NT nt_ns_att_name) (SeqR (NT nt_eq) (NT nt_att_value))) ([97; 61] ++ q :: u)).
-  { apply fails_seq_l. apply fails_nt. rewrite body_ns_att_name. apply fails_alt; apply fails_map.
-    - apply fails_seqr_l. apply fails_tag. reflexivity.
-    - apply fails_tag. reflexivity. }
-  assert (Hname : P (Map L_model_AttributeName_from (NT nt_qname)) ([97; 61] ++ q :: u)
-                    (TMap L_model_AttributeName_from (tree_qname (Unprefixed [97]))) (61 :: q :: u)).
-  { apply parses_map. apply (parses_qname (Unprefixed [97]) (61 :: q :: u)); [split; reflexivity | reflexivity]. }
-  assert (Heq : P (NT nt_eq) (61 :: q :: u) (TStr [61]) (q :: u)).
-  { apply parses_eq. destruct Hq as [-> | ->]; reflexivity. }
-  destruct (run G_xml G_xml_R nt_att_value (q :: u)) as [[t r]| |] eqn:R.
-  - assert (Hv : P (NT nt_att_value) (q :: u) t r) by (eapply parses_of_denote; exact R).
-    unfold parse_attribute, parse_with.
-    rewrite (run_parses nt_attribute _
-               (TMap L_model_Attribute_from (TPair (TMap L_model_AttributeName_from (tree_qname (Unprefixed [97]))) t)) r).
-    + cbn [eval_tree]. rewrite eval_tree_qname.
-      change (apply_label L_model_Attribute_from
-                (VPair (apply_label L_model_AttributeName_from (VQName (Unprefixed [97]))) (eval_tree t)))
-        with (ret (fun a' => VAttribute (attr_a a')) (as_list as_attvalue (eval_tree t))).
-      destruct (as_list as_attvalue (eval_tree t)) as [avl|]; reflexivity.
-    + apply parses_nt. rewrite body_attribute. apply parses_map. apply parses_alt_r; [exact Hns|].
-      eapply parses_seq; [exact Hname|]. eapply parses_seqr; [exact Heq | exact Hv].
-  - apply parse_with_fails. apply fails_nt. rewrite body_attribute. apply fails_map. apply fails_alt; [exact Hns|].
-    eapply fails_seq_r; [exact Hname|]. eapply fails_seqr_r; [exact Heq|]. eapply fails_of_denote. exact R.
-  - exfalso. exact (xml_grammar_terminates _ _ R).
+  intros n s Hn. apply ncname_ok_iff in Hn. unfold value_of_name, value_fact. rewrite quoted_eq. cbn [app].
+  rewrite (attr_n_run n (quote_of s) (s ++ [quote_of s]) Hn (quote_of_cases s)).
+  change (97 :: 61 :: quote_of s :: s ++ [quote_of s]) with ([97; 61] ++ quote_of s :: s ++ [quote_of s]).
+  rewrite (attr_a_run (quote_of s) (s ++ [quote_of s]) (quote_of_cases s)).
+  destruct (run G_xml G_xml_R nt_att_value (quote_of s :: s ++ [quote_of s])) as [[t r]| |]; try reflexivity.
+  destruct (as_list as_attvalue (eval_tree t)) as [avl|]; [|reflexivity].
+  destruct r; reflexivity.
 Qed.
 
 (** a successful run of att_value: the pieces and the text they spell *)
